@@ -264,7 +264,7 @@ int main(int argc, char **argv)
 			int sym = li ? 313 : 256, i;
 			if (!vf_case("lh1 %d literals then copy offset=%u len=%d then literal then copy", pres[pi], off, sym - 253)) continue;
 			enc_reset();
-			for (i = 0; i < pres[pi]; ++i) enc_symbol((i * 11 + 1) & 0xFF, 0);
+			for (i = 0; i < pres[pi]; ++i) enc_symbol((i * 11 + 1 + (i >> 8) * 37) & 0xFF, 0);      /* no period of 256: window slots 256 apart differ */
 			enc_symbol(sym, off);
 			enc_symbol(0x7A, 0);
 			enc_symbol(li ? 256 : 313, off);
